@@ -41,6 +41,7 @@ type cfg struct {
 	workers, seed, maxPaths, samples, timeoutMs, unwind  int
 	deadline                                             time.Duration
 	verbose, noReplay                                    bool
+	replay                                               string
 	level                                                string
 }
 
@@ -112,6 +113,7 @@ func main() {
 	flag.IntVar(&c.unwind, "unwind", 100000, "default loop unwinding bound per frame")
 	flag.DurationVar(&c.deadline, "deadline", 0, "per-harness wall-clock cap (0 = none)")
 	flag.BoolVar(&c.verbose, "v", false, "verbose")
+	flag.StringVar(&c.replay, "replay", "", "replay a counterexample file natively and exit")
 	flag.BoolVar(&c.noReplay, "no-replay", false, "skip native replay/validation (development only; never registered)")
 	flag.Parse()
 	os.Setenv("PATH", "/opt/veriftools/go1.26.8/bin:"+os.Getenv("PATH"))
@@ -186,6 +188,9 @@ func run(c *cfg) int {
 				selected[f.relPkg] = append(selected[f.relPkg], name)
 			}
 		}
+	}
+	if c.replay != "" {
+		return replayOnly(c, files, overlay, pkgFuncs)
 	}
 	if len(selected) == 0 {
 		return fail(c, "no harness functions match "+c.run)
@@ -417,4 +422,70 @@ func tail(s string, n int) string {
 		return s[len(s)-n:]
 	}
 	return s
+}
+
+// replayOnly re-runs one stored counterexample against the natively compiled current tree.
+func replayOnly(c *cfg, files []harnessFile, overlay map[string][]byte, pkgFuncs map[string][]string) int {
+	data, err := os.ReadFile(c.replay)
+	if err != nil {
+		return fail(c, err.Error())
+	}
+	var v struct {
+		Harness  string            `json:"harness"`
+		AssertID string            `json:"assert_id"`
+		Kind     string            `json:"kind"`
+		Model    map[string]string `json:"model"`
+	}
+	if err := json.Unmarshal(data, &v); err != nil {
+		return fail(c, err.Error())
+	}
+	rel := ""
+	for p, fs := range pkgFuncs {
+		for _, f := range fs {
+			if f == v.Harness {
+				rel = p
+			}
+		}
+	}
+	if rel == "" {
+		return fail(c, "harness "+v.Harness+" not found")
+	}
+	for _, f := range files {
+		if f.relPkg != rel && f.relPkg != "pkg/zz_verifrt" {
+			delete(overlay, f.virtual)
+		}
+	}
+	c.outDir = c.outDir + "-replay"
+	os.RemoveAll(c.outDir)
+	os.MkdirAll(c.outDir, 0o755)
+	rp := newReplayer(c, pkgFuncs, overlay, map[string]bool{rel: true})
+	if rp.err != nil {
+		return fail(c, rp.err.Error())
+	}
+	res, timedOut, err := rp.runJobs(rel, []job{{v.Harness, v.Model}}, 60*time.Second, "replay")
+	if err != nil {
+		return fail(c, err.Error())
+	}
+	repro := false
+	if timedOut {
+		repro = v.Kind == "unwind"
+		fmt.Println("native run did not terminate within 60s")
+	} else {
+		nr := res[0]
+		fmt.Printf("native: failed_asserts=%v panic=%q assume_failed=%v observes=%v\n", nr.FailedAsserts, nr.Panic, nr.AssumeFailed, nr.Observes)
+		for _, id := range nr.FailedAsserts {
+			if id == v.AssertID {
+				repro = true
+			}
+		}
+		if v.Kind == "panic" && nr.Panic != "" {
+			repro = true
+		}
+	}
+	if repro {
+		fmt.Printf("VIOLATION property=%s replay=%s\n", c.prop, c.replay)
+		return 1
+	}
+	fmt.Println("counterexample does not reproduce on the current tree")
+	return 0
 }
